@@ -98,7 +98,8 @@ func (ck *MkCondChecker) checkAnd(conds []*MkCond) {
 		conds[0].Defined != "" &&
 		conds[1].Not != nil &&
 		conds[1].Not.Empty != nil &&
-		conds[0].Defined == conds[1].Not.Empty.varname {
+		conds[0].Defined == conds[1].Not.Empty.varname &&
+		!conds[1].Not.Empty.HasModifier("U") {
 		fix := ck.MkLine.Autofix()
 		fix.Notef("Checking \"defined\" before \"!empty\" is redundant.")
 		fix.Explain(
